@@ -421,6 +421,16 @@ func Check(opt Options, writeBaseline bool) int {
 		}
 	}
 	printReport(opt, rr, v)
+	for _, o := range rr.Obls {
+		if o.Detail == "error" {
+			raw := o.Raw
+			if len(raw) > 400 {
+				raw = raw[:400]
+			}
+			fmt.Printf("ENGINE-ERROR: solver rejected a query of %s: %s\n", o.Name, strings.TrimSpace(raw))
+			return 2
+		}
+	}
 	if writeBaseline {
 		if err := WriteBaseline(opt, rr, v); err != nil {
 			fmt.Println("ENGINE-ERROR:", err)
